@@ -6,7 +6,7 @@
 From Coq Require Import ZArith QArith List Lia.
 From DV Require Import Base.Field Base.LinAlg Base.QcInst Model.Enums Model.Homog Model.Grid Model.Lattice
   Gen.GridT Gen.GridCoords Proofs.C01Grid Proofs.C01Laws Proofs.C01TwoA Proofs.C01TwoB Proofs.C01TwoC
-  Proofs.C01TwoGrids Proofs.C01Cube Proofs.C01Lattice.
+  Proofs.C01TwoGrids Proofs.C01Cube Proofs.C01Lattice Model.Sampler Model.SamplerQc Proofs.C01Sample.
 Import ListNotations.
 
 Section Statements.
@@ -182,6 +182,43 @@ Theorem C01_unnormalize_own_coords :
   forall (ac : bool) (n i : Q), ~ n == 0 -> ~ n - 1 == 0 -> unnormalize ac n (coord_spec ac n i) == i.
 Proof. exact unnormalize_coord. Qed.
 Print Assumptions C01_unnormalize_own_coords.
+
+Local Close Scope Q_scope.
+Local Open Scope fld_scope.
+(* 9b. sampling an image at the coordinates its grid reports, with the matching align_corners flag, returns
+       the image unchanged: every size >= 2 per axis, D = 1, 2, 3, either padding mode (grid_sample model of
+       Model/Sampler.v; floor is a parameter that must be exact on integers, as it is for the Qc instance) *)
+Theorem C01_sample_own_coords :
+  forall (K : fld), is_field K -> char0 K ->
+  forall (floorK : K -> Z), (forall i : Z, floorK (of_Z i) = i) ->
+  (forall (pad : padmode) (ac : bool) (l : list K) (j : Z),
+     (2 <= zlen l)%Z -> (0 <= j < zlen l)%Z ->
+     grid_sample1 floorK pad ac l (coordK K ac (zlen l) j) = nth (Z.to_nat j) l 0) /\
+  (forall (pad : padmode) (ac : bool) (img : list (list K)) (jx jy : Z),
+     (2 <= zlen img)%Z -> (2 <= zlen (hd [] img))%Z ->
+     (forall row, In row img -> zlen row = zlen (hd [] img)) ->
+     (0 <= jy < zlen img)%Z -> (0 <= jx < zlen (hd [] img))%Z ->
+     grid_sample2 floorK pad ac img (coordK K ac (zlen (hd [] img)) jx) (coordK K ac (zlen img) jy)
+     = nth (Z.to_nat jx) (nth (Z.to_nat jy) img []) 0) /\
+  (forall (pad : padmode) (ac : bool) (img : list (list (list K))) (jx jy jz : Z),
+     let ny := zlen (hd [] img) in let nx := zlen (hd [] (hd [] img)) in
+     (2 <= zlen img)%Z -> (2 <= ny)%Z -> (2 <= nx)%Z ->
+     (forall sl, In sl img -> zlen sl = ny /\ forall row, In row sl -> zlen row = nx) ->
+     (0 <= jz < zlen img)%Z -> (0 <= jy < ny)%Z -> (0 <= jx < nx)%Z ->
+     grid_sample3 floorK pad ac img (coordK K ac nx jx) (coordK K ac ny jy) (coordK K ac (zlen img) jz)
+     = nth (Z.to_nat jx) (nth (Z.to_nat jy) (nth (Z.to_nat jz) img []) []) 0).
+Proof.
+  intros K Kf Kc floorK Hf. split; [|split].
+  - exact (sample_own_coords_1d K Kf Kc floorK Hf).
+  - exact (sample_own_coords_2d K Kf Kc floorK Hf).
+  - exact (sample_own_coords_3d K Kf Kc floorK Hf).
+Qed.
+Print Assumptions C01_sample_own_coords.
+
+Theorem C01_qc_floor_exact_on_integers : forall i : Z, floorQ (of_Z (K:=QcF) i) = i.
+Proof. exact floorQ_of_Z. Qed.
+Local Close Scope fld_scope.
+Local Open Scope Q_scope.
 
 (* 10. default rounding of mapped coordinates: error at most half a unit in the last kept decimal,
        hence an explicit bound on a rounded round trip through a per-axis map y = a x + b *)
